@@ -6,6 +6,8 @@ CONSTANTS
   HasHf = FALSE
   Absent0 = {}
   Admin = FALSE
+  AlwaysW = TRUE
+  AlwaysPRs = TRUE
   Cmds = {}
   Rewrites = FALSE
   NP = 3
